@@ -775,7 +775,10 @@ def c14(ck):
     extra = []
     def one(pred, mut):
         nonlocal nid
-        c = _first(events, pred, "C14")
+        try:
+            c = _first(events, pred, "C14")
+        except ToolError:
+            return          # (an implementation that is already failing everywhere offers no such event)
         mut(c)
         c["id"] = nid
         c.pop("ep_start", None)
@@ -812,6 +815,8 @@ def c14(ck):
                and sum(1 for x in ep if x["event"] == "Write" and x["len"] > 0) > 8), None)
     if ep is not None:      # (absent only when the implementation under test is already failing everywhere)
         extra = ep_clone(ep, bad_call) + ep_clone(ep, early_ok) + extra
+    if len(canaries) < 3:
+        raise ToolError("C14: too few canaries could be constructed")
     else:
         ep = eps[0]
     events = extra + events
@@ -999,6 +1004,12 @@ def run_files(ck, binary, own, extra_args, gen=True, tag="c07"):
     if other:
         log(f"  rejects belonging to other properties: {other}")
     ck.extra["panics_seen_belonging_to_C04"] = ck.extra.get("panics_seen_belonging_to_C04", 0) + len(panics)
+    # a package the library itself emitted whose payload the harness cannot even decompress / scan is not a
+    # well-formed archive (C09) and cannot be iterated faithfully (C07)
+    for e in events:
+        if e["id"] in by_id and e["event"] == "Undecodable" and origin_kind(e) in ("built", "random", "largefile"):
+            if any(o.startswith(("C07", "C09")) for o in own):
+                ck.violation(f"{own[0]}emitted archive undecodable ({e.get('what')}):{e.get('origin')}", "Undecodable", e)
     return [e for e in events if e["id"] in by_id and e["event"] == "Files"]
 
 
